@@ -226,6 +226,7 @@ func (p *c16prop) Gen(kind string, idx int64, seed int64, tier string) core.Case
 					c.WindowSize = 1 << 17
 				}
 			}
+			c.TameBig()
 			_, stream := gen.Bytes(r, 300000+r.Intn(200000), c.Hint())
 			ops := []POp{{K: "write", A: 0, B: 25000}, {K: "parse"}, {K: "parse"}, {K: "parse"}, {K: "parse"}, {K: "parse"}, {K: "parse"}, {K: "parse"}, {K: "parse"}, {K: "shrink"},
 				{K: "readfrom", A: 1, B: 10}, {K: "parse"}, {K: "parse", A: 1}, {K: "shrink"}, {K: "readfrom", A: 0, B: 70000}, {K: "parse"}, {K: "readfrom", A: 1, B: 0}}
